@@ -252,6 +252,7 @@ def run(ctx: Ctx):
     col.ob("G8", "S4", f"{where}::ignore-fallback", fb == {"self._rank": 0, "self._world_size": 1},
            f"the non-distributed / 'ignore' fallback sets {fb}, expected rank 0 of world 1", rel, init.line,
            sample=fb)
+    _seed_domain(ctx)
     plumbing(ctx, "S4")
     return dict(
         explanation=(
@@ -286,10 +287,41 @@ MANIFEST = dict(
 )
 
 
+def _seed_domain(ctx: Ctx):
+    """S5: the order of an epoch is np.random.RandomState((base_seed, epoch)).permutation(...). (a) A seed the constructor
+    accepts must be one the generator accepts: an upper bound check without a lower bound lets a negative seed through and
+    every later iteration raises. (b) The order has to be the same on every rank - the ranks slice one common permutation -
+    so the seed must not come from process-local randomness (each rank would draw its own)."""
+    from sa.defuse import ReachingDefs
+    col, pkg = ctx.col, ctx.pkg
+    f = pkg.func("_dataloaders::EpochRandomSampler.__init__")
+    rel = f.module.relname
+    rd = ReachingDefs(f.node)
+    stores = [n for n in own_nodes(f.node) if isinstance(n, ast.Assign) and any(u(t) == "self.base_seed" for t in n.targets)]
+    if len(stores) != 1 or not isinstance(stores[0].value, ast.Name):
+        raise AnalysisError("C13: EpochRandomSampler.__init__ does not store self.base_seed from a local once")
+    der = rd.derives(stores[0].value)
+    calls = [call_name(c) for c in der.calls()]
+    upper = any(c in ("argcheck.is_lte", "argcheck.is_lt", "argcheck.is_btw", "argcheck.is_btw_closed", "argcheck.is_btw_open") for c in calls)
+    lower = any(c in ("argcheck.is_gte", "argcheck.is_gt", "argcheck.is_nonneg", "argcheck.is_nonnegi", "argcheck.is_nat", "argcheck.is_posi",
+                      "argcheck.is_pos", "argcheck.is_btw", "argcheck.is_btw_closed", "argcheck.is_btw_open", "argcheck.as_nonnegi", "argcheck.as_nat") for c in calls)
+    col.ob("G3", "S5", f"{rel}::EpochRandomSampler.__init__::seed-bounded-on-both-sides", upper and lower,
+           f"`base_seed` is validated by {sorted(set(c for c in calls if c.startswith('argcheck.')))}: bounded above but not below, so "
+           f"EpochRandomSampler(ds, base_seed=-1) is constructed and every iteration then raises 'Seed must be between 0 and "
+           f"2**32 - 1'", rel, stores[0].lineno, sample=sorted(set(calls)))
+    rng = [c for c in calls if c.startswith(("torch.rand", "torch.randint", "random.", "np.random.", "numpy.random."))]
+    shared = any(c.startswith("torch.distributed.broadcast") or c.endswith("broadcast_object_list") for c in [call_name(x) for x in own_calls(f.node)])
+    col.ob("G11", "S5", f"{rel}::EpochRandomSampler.__init__::default-seed-is-common-to-all-ranks", not rng or shared,
+           f"with base_seed omitted the seed is drawn by {sorted(set(rng))} in each process and never broadcast: the ranks of a "
+           f"distributed group permute with different seeds and their slices neither are disjoint nor cover the epoch", rel,
+           stores[0].lineno, sample=sorted(set(rng)))
+
+
 def _mutants():
     from selftest.mutate import Mutant as M
     T = "_dataloaders.py"
     return [
+        M("seed-unbounded-below", "_dataloaders.py", "base_seed = argcheck.is_nonneg(base_seed, 'base_seed')\n", "", "seed-bounded-on-both-sides"),
         M("random-sampler-drops-mode", "_dataloaders.py", "super().__init__(data_source, init_epoch, on_uneven_distributed)", "super().__init__(data_source, init_epoch)", "super().__init__-forwards-shared-options"),
         M("seed-reads-self-epoch", T, "np.random.RandomState((self.base_seed, epoch))",
           "np.random.RandomState((self.base_seed, self.epoch))", "reads-final(self.epoch)"),
